@@ -46,6 +46,8 @@ ASSUMPTIONS = [
     "next battery request (the repeat count is not part of the transcript)",
     "PYTHONHASHSEED=random children make the check as strong as their luck; the fixed hash seeds 0/1/4242 decide",
     "quick tier: battery in at most 3 sessions per model (session 1 first), thorough: all sessions",
+    "parameter sets with overlapping mandatory / optional lists are model-only cases (model + graph clauses in 3 "
+    "environments, no request battery): 32 seeds quick, 256 thorough",
 ]
 CHUNK = 1
 
@@ -83,6 +85,23 @@ PARAM_SETS: list[tuple[str, dict[str, Any]]] = [
     ("handlers-p=0.05", {"p_identifier": 0.05, "p_correct_payload_format": 0.5, "p_service": 1.0, "p_session": 0.05}),
 ]
 
+# Overlapping mandatory / optional lists (a service listed in both must still be guaranteed, not gambled).  These
+# sets are about the *model*: children only build models (no request battery), so many seeds are cheap.
+_ALL = list(range(0x01, 0x0B)) + [0x10, 0x11, 0x14, 0x19, 0x22, 0x23, 0x24, 0x27, 0x28, 0x29, 0x2A, 0x2C, 0x2E, 0x2F,
+                                  0x31, 0x34, 0x35, 0x36, 0x37, 0x38, 0x3D, 0x3E, 0x83, 0x84, 0x85, 0x86, 0x87]  # fmt: skip
+_DEFAULT_OPTIONAL = [x for x in _ALL if x != 0x10]
+_EXT = [0x10, 0x22, 0x27, 0x3E]
+_BOTH = [0x10, 0x11, 0x22, 0x27, 0x31, 0x3E]
+OVERLAP_SETS: list[tuple[str, dict[str, Any]]] = []
+for _p in (0.2, 0.5):
+    OVERLAP_SETS += [
+        (f"overlap-full-optional/p={_p}", {"optional_services": _ALL, "p_service": _p}),
+        (f"overlap-extended-mandatory/p={_p}", {"mandatory_services": _EXT, "optional_services": _DEFAULT_OPTIONAL + [0x22, 0x27, 0x3E], "p_service": _p}),
+        (f"overlap-bats-like/p={_p}", {"mandatory_services": _EXT, "optional_services": _ALL, "mandatory_sessions": [1, 2, 3], "p_service": _p}),
+        (f"overlap-mandatory==optional/p={_p}", {"mandatory_services": _BOTH, "optional_services": _BOTH, "p_service": _p, "p_session": 0.1}),
+    ]
+OVERLAP_ENVS = ("ref", "hash1", "all")
+
 
 # ---------------------------------------------------------------------------
 # child
@@ -92,6 +111,7 @@ def _child(spec: dict[str, Any]) -> None:
     order, clockv, seeds, params, full, max_sessions = (
         spec["order"], spec["clock"], spec["seeds"], spec["params"], spec.get("full", False), spec.get("max_sessions"),
     )  # fmt: skip
+    model_only = spec.get("model_only", False)
     import logging
 
     if order == "B":
@@ -169,6 +189,9 @@ def _child(spec: dict[str, Any]) -> None:
         srv, tr = new_server()
         model = dump(srv)
         srv_again, _ = new_server()
+        if model_only:
+            out.append({"seed": seed, "model": model, "setup_twice_same_model": dump(srv_again) == model, "blocks": {}, "n_lines": 0})
+            continue
         m = ref.Model({int(s, 16): {int(k, 16): v for k, v in d.items()} for s, d in model.items()})
         gen, _notes = vc.codec_generated()
         battery = list(dict.fromkeys(vc.short_alphabet(m, wide=False, two_for_unknown=False) + vc.structured(m) + gen))
@@ -248,12 +271,14 @@ def _child(spec: dict[str, Any]) -> None:
     sys.stdout.write(json.dumps(out))
 
 
-def run_child(env: tuple[Any, ...], params: dict[str, Any], seeds: list[int], full: bool = False, max_sessions: int | None = None) -> list[dict[str, Any]]:
+def run_child(
+    env: tuple[Any, ...], params: dict[str, Any], seeds: list[int], full: bool = False, max_sessions: int | None = None, model_only: bool = False
+) -> list[dict[str, Any]]:
     _label, hashseed, order, clockv, _axis = env
     repo = os.environ.get("VERIF_REPO", "/repo")
     e = dict(os.environ)
     e.update(PYTHONHASHSEED=hashseed, PYTHONPATH=f"{repo}/src:{ROOT}", PYTHONDONTWRITEBYTECODE="1")
-    spec = {"order": order, "clock": clockv, "seeds": seeds, "params": params, "full": full, "max_sessions": max_sessions}
+    spec = {"order": order, "clock": clockv, "seeds": seeds, "params": params, "full": full, "max_sessions": max_sessions, "model_only": model_only}
     p = subprocess.run([PY, str(Path(__file__).resolve()), "--child", json.dumps(spec)], env=e, capture_output=True, timeout=3600, check=False)
     if p.returncode != 0:
         raise RuntimeError(f"child failed ({p.returncode}) env={env} seeds={seeds}: {p.stderr.decode()[-1500:]}")
@@ -278,7 +303,12 @@ def items(tier: str, seed: int) -> list[tuple[Any, ...]]:
         for lo in range(0, n, batch):
             seeds = list(range(lo, min(lo + batch, n)))
             for env in envs:
-                out.append((pname, params, seeds, list(env), max_sessions))
+                out.append((pname, params, seeds, list(env), max_sessions, False))
+    n_overlap = 32 if tier == "quick" else 256
+    for pname, params in OVERLAP_SETS:
+        for env in envs:
+            if env[0] in OVERLAP_ENVS:
+                out.append((pname, params, list(range(n_overlap)), list(env), max_sessions, True))
     return out
 
 
@@ -290,10 +320,10 @@ def run_item(item: tuple[Any, ...]) -> Any:
     from vf.engine.runner import Result
     from vf.ref import c13_model as ref
 
-    pname, params, seeds, env, max_sessions = item
+    pname, params, seeds, env, max_sessions, model_only = item
     env = tuple(env)
     res = Result()
-    docs = run_child(env, params, seeds, max_sessions=max_sessions)
+    docs = run_child(env, params, seeds, max_sessions=max_sessions, model_only=model_only)
     res.count("child_processes")
     for d in docs:
         key = f"{pname}|{d['seed']}|{env[0]}"
@@ -302,11 +332,11 @@ def run_item(item: tuple[Any, ...]) -> Any:
             sort_keys=True,
         )
         res.count("transcripts")
+        # model-only cases: one evaluation per offered session (model equality / graph clauses)
+        res.count("evaluations", d["n_lines"] if not model_only else len(d["model"]))
         if env[0] != "ref":
-            res.count("evaluations", d["n_lines"])
             continue
         # reference environment: the clauses about the model itself
-        res.count("evaluations", d["n_lines"])
         res.seen("nontrivial", ("model", pname, d["model"]))
         for b, h in d["blocks"].items():
             res.seen("nontrivial", ("block", h))
@@ -325,16 +355,18 @@ def run_item(item: tuple[Any, ...]) -> Any:
     return res
 
 
-def _first_difference(pname: str, params: dict[str, Any], seed: int, env_a: tuple[Any, ...], env_b: tuple[Any, ...], max_sessions: int | None) -> tuple[str, str]:
+def _first_difference(
+    pname: str, params: dict[str, Any], seed: int, env_a: tuple[Any, ...], env_b: tuple[Any, ...], max_sessions: int | None, model_only: bool = False
+) -> tuple[str, str]:
     """Re-run both environments with full transcripts; returns (what differs first - a service id or 'model', text)."""
-    a = run_child(env_a, params, [seed], full=True, max_sessions=max_sessions)[0]
-    b = run_child(env_b, params, [seed], full=True, max_sessions=max_sessions)[0]
+    a = run_child(env_a, params, [seed], full=True, max_sessions=max_sessions, model_only=model_only)[0]
+    b = run_child(env_b, params, [seed], full=True, max_sessions=max_sessions, model_only=model_only)[0]
     if a["model"] != b["model"]:
         for s in sorted(set(a["model"]) | set(b["model"])):
             if a["model"].get(s) != b["model"].get(s):
                 return "model", f"session {s}: {a['model'].get(s)} vs {b['model'].get(s)}"
         return "model", "models differ"
-    for name in sorted(set(a["lines"]) | set(b["lines"])):
+    for name in sorted(set(a.get("lines", {})) | set(b.get("lines", {}))):
         la, lb = a["lines"].get(name, []), b["lines"].get(name, [])
         for i in range(max(len(la), len(lb))):
             x = la[i] if i < len(la) else None
@@ -351,7 +383,8 @@ def finish(merged: Any, tier: str) -> dict[str, Any]:
     envs, n_default, n_other, _batch, max_sessions = _bounds(tier)
     tr = {k: json.loads(v) for k, v in merged.notes.pop("transcripts", {}).items()}
     by_env = {e[0]: e for e in envs}
-    params_by_name = dict(PARAM_SETS)
+    params_by_name = dict(PARAM_SETS + OVERLAP_SETS)
+    overlap_names = {n for n, _ in OVERLAP_SETS}
     compared = 0
     # which environments differ, per (parameter set, seed)
     differing: dict[tuple[str, str], list[str]] = {}
@@ -379,22 +412,23 @@ def finish(merged: Any, tier: str) -> dict[str, Any]:
         kind = "model-differs" if tr[f"{pname}|{seed_s}|{label}"]["model"] != refd["model"] else "answers-differ"
         lk = (kind, axis)
         if lk not in located:
-            located[lk] = _first_difference(pname, params_by_name[pname], int(seed_s), by_env["ref"], env, max_sessions)
+            located[lk] = _first_difference(pname, params_by_name[pname], int(seed_s), by_env["ref"], env, max_sessions, pname in overlap_names)
         what, text = located[lk]
         sig = f"C16|{kind}|axis={axis}" + (f"|first-diff={what}" if kind == "answers-differ" else "")
         merged.violate(
             sig,
             f"params {pname} seed {seed_s}: environments {labels} differ from the reference environment; e.g. {label} (PYTHONHASHSEED={env[1]}, import order {env[2]}, clock {env[3]}): {text}",
-            {"kind": "diff", "pname": pname, "params": params_by_name[pname], "seed": int(seed_s), "env": list(env), "axis": axis, "max_sessions": max_sessions},
+            {"kind": "diff", "pname": pname, "params": params_by_name[pname], "seed": int(seed_s), "env": list(env), "axis": axis, "max_sessions": max_sessions, "model_only": pname in overlap_names},
         )
-    want = sum((n_default if p == "default" else n_other) for p, _ in PARAM_SETS) * (len(envs) - 1)
+    want = sum(len(it[2]) for it in items(tier, 0) if it[3][0] != "ref")
     if compared != want:
         raise Broken(f"compared {compared} transcripts, expected {want}")
     c = merged.counters
     if c.get("models_checked", 0) < 40 or c.get("evaluations", 0) < 100000:
         raise Broken("vacuous: too few models / answers")
     return {
-        "bound": {"seeds_default": n_default, "seeds_other_parameter_sets": n_other, "parameter_sets": [p for p, _ in PARAM_SETS], "environments": [e[0] for e in envs], "max_sessions": max_sessions},
+        "bound": {"seeds_default": n_default, "seeds_other_parameter_sets": n_other, "parameter_sets": [p for p, _ in PARAM_SETS], "environments": [e[0] for e in envs], "max_sessions": max_sessions,
+                  "model_only_parameter_sets": [p for p, _ in OVERLAP_SETS], "model_only_seeds": 32 if tier == "quick" else 256, "model_only_environments": list(OVERLAP_ENVS)},
         "transcript_pairs_compared": compared,
     }
 
@@ -415,7 +449,7 @@ def replay(doc: dict[str, Any]) -> Any:
             res.violate(f"C16|model|setup-twice-differs|params={pname}", "two setups differ", doc)
         return res
     env = tuple(doc["env"])
-    what, text = _first_difference(pname, params, seed, ENVS_QUICK[0], env, doc.get("max_sessions"))
+    what, text = _first_difference(pname, params, seed, ENVS_QUICK[0], env, doc.get("max_sessions"), doc.get("model_only", False))
     print("    ", text)
     if what != "none":
         kind = "model-differs" if what == "model" else "answers-differ"
